@@ -62,6 +62,20 @@ CHECKS = {
          'sharing nothing with hszinc) which must accept it and read back exactly Abs(g).',
     ref='DESIGN.md 5/C04, Appendix A', technique='TLA+ character-level reader machine ZincRead (strict mode) executed by TLC over hszinc\'s output; layout plans generated by TLC',
     note='the strict reader accepts the spellings pinned by the repository\'s dumper tests (hex(..)/b64(..) lower-case types, {marker:M}); grid domain as C01'),
+
+ 'C03': dict(
+    text='spec/ZincWrite.tla is an independent grammar-directed writer (spelling styles for numbers, escapes, time fractions, date-time case/zone, coordinates, separators, CRLF, '
+         'marker tags, list/dict blanks and trailing commas, empty cells, grid gaps, final newline).  TLC spells abstract documents in every single-choice deviation plus seeded mixed styles, '
+         'checks that the reader machine ZincRead reads each back to its denotation (the two specifications agree), and prints <<text, denotation>>; hszinc.parse is run on every text '
+         '(str/bytes x charset, single True/False) and TLC judges Abs(result) = denotation.',
+    ref='DESIGN.md 5/C03', technique='TLA+ writer spec ZincWrite + reader spec ZincRead cross-checked by TLC; TLC-generated documents replayed into hszinc.parse; TLC-judged equality',
+    note='number spellings derive from the shortest round-trip decimal of the denoted double; ambiguous URI escapes not generated'),
+ 'C09': dict(
+    text='spec/Gen_ZincMut.tla: TLC enumerates every mutant (truncate/delete/insert/replace/duplicate/swap at every position, 22 metacharacter symbols) of seed documents written by ZincWrite; '
+         'hszinc\'s outcome on each (grid / ZincParseException(line, col) / other / timeout) is judged by TLC with the reader machine: structurally broken text (reason in ZincRead.Structural) must be rejected, '
+         'accepted text must be read as the machine reads it, the reported position must lie within the text; seeded random strings, splices and scalar tokens too.',
+    ref='DESIGN.md 5/C09', technique='TLA+ mutation operators over ZincWrite documents enumerated by TLC; reader machine ZincRead as the oracle in TLC trace judgement',
+    note='non-structural rejections of the machine (calendar ranges, cell counts, unknown tokens, ambiguous escapes) leave hszinc either outcome; 5 s budget per call'),
 }
 NOT_YET = {}
 
